@@ -136,6 +136,10 @@ func ToExpr(args []interface{}, types []reflect.Type, isVariadic bool) ([]Expr, 
 
 		if expr, ok := a.(Expr); ok {
 			expressions[i] = expr
+			// 单值表达式(如 Equals)对应可变参数中的单个元素, 按元素类型解析; In 表达式自行展开可变参数数组
+			if _, isList := expr.(*InExpr); !isList && isVariadic && i >= len(types)-1 {
+				typ = typ.Elem()
+			}
 		} else {
 			// 兼容可变参数, 只有最后一个参数类型是可变参数数组
 			if isVariadic && i >= len(types)-1 {
